@@ -6,17 +6,17 @@ import in "github.com/openfga/openfga/internal/verifrt/vrt"
 
 type Case = in.Case
 
-func Go(f func())                                  { in.Go(f) }
-func MakeChan[T any](n int) chan T                 { return in.MakeChan[T](n) }
-func Send[T any](c chan<- T, v T)                  { in.Send(c, v) }
-func Recv[T any](c <-chan T) T                     { return in.Recv(c) }
-func Recv2[T any](c <-chan T) (T, bool)            { return in.Recv2(c) }
-func Close[T any](c chan<- T)                      { in.Close(c) }
-func Len[T any](c chan T) int                      { return in.Len(c) }
-func Cap[T any](c chan T) int                      { return in.Cap(c) }
-func Select(d bool, cs ...Case) (int, any, bool)   { return in.Select(d, cs...) }
-func RecvCase(c any) Case                          { return in.RecvCase(c) }
-func SendCase(c any, v any) Case                   { return in.SendCase(c, v) }
-func As[T any](c <-chan T, v any) T                { return in.As(c, v) }
-func AsBi[T any](c chan T, v any) T                { return in.AsBi(c, v) }
+func Go(f func())                                         { in.Go(f) }
+func MakeChan[T any](n int) chan T                        { return in.MakeChan[T](n) }
+func Send[T any](c chan<- T, v T)                         { in.Send(c, v) }
+func Recv[T any](c <-chan T) T                            { return in.Recv(c) }
+func Recv2[T any](c <-chan T) (T, bool)                   { return in.Recv2(c) }
+func Close[T any](c chan<- T)                             { in.Close(c) }
+func Len[T any](c chan T) int                             { return in.Len(c) }
+func Cap[T any](c chan T) int                             { return in.Cap(c) }
+func Select(d bool, cs ...Case) (int, any, bool)          { return in.Select(d, cs...) }
+func RecvCase(c any) Case                                 { return in.RecvCase(c) }
+func SendCase(c any, v any) Case                          { return in.SendCase(c, v) }
+func As[T any](c <-chan T, v any) T                       { return in.As(c, v) }
+func AsBi[T any](c chan T, v any) T                       { return in.AsBi(c, v) }
 func SortedKeys[M ~map[K]V, K comparable, V any](m M) []K { return in.SortedKeys(m) }
